@@ -51,7 +51,7 @@ def phash(b):
 def make_device(cfg):
     return SimDevice(
         objectName=cfg['name'],
-        objectIdentifier=('device', cfg['addr']),
+        objectIdentifier=('device', 1000 + cfg['addr']),
         maxApduLengthAccepted=cfg.get('maxApdu', 1024),
         segmentationSupported=cfg.get('seg', 'segmentedBoth'),
         maxSegmentsAccepted=cfg.get('maxSegs', 64),
